@@ -241,6 +241,90 @@ def case_fn(case):
 
 
 # ---------------------------------------------------------------------------------------------
+# large spectral grids in correlated-k mode (more points than any block a kernel might work in): degenerate k-tables
+# against the same numbers as cross-sections at EVERY wavenumber, for all three model kinds
+# ---------------------------------------------------------------------------------------------
+def bigk_fn(case):
+    from taurex.cache import OpacityCache, GlobalCache
+    from taurex.cache.ktablecache import KTableCache
+    import os
+    r = core.R(case)
+    nW, kind = case['nW'], case['kind']
+    wn = np.linspace(600.0, 6000.0, nW)
+    g = fx.rng('c20big', nW)
+    tab = (10 ** g.uniform(-0.5, 0.5, size=(2, 2, nW))) * 1e-27 * 1e4
+    gw = [0.3, 0.7]
+    spec = {'kind': kind, 'N': 3, 'T': ['dec'], 'ngauss': 2, 'gases': [['H2O', ['const', 1e-4]]], 'contribs': ['abs', 'ray']}
+    out = {}
+    for ktab in (True, False):
+        fx.reset_caches()
+        if ktab:
+            d = fx.fresh_dir('ktables_big')
+            fx.write_pickle_ktable(os.path.join(d, 'H2O.pickle'), 'H2O', wn, fx.T_GRIDS[2], fx.P_GRIDS[2],
+                                   tab[..., None] * np.ones(2)[None, None, None, :], gw)
+            GlobalCache()['xsec_interpolation'] = 'linear'
+            GlobalCache()['opacity_method'] = 'ktables'
+            KTableCache().set_ktable_path(d)
+            KTableCache().clear_cache()
+        else:
+            OpacityCache().add_opacity(fx.TinyOp('H2O', wn, fx.T_GRIDS[2], fx.P_GRIDS[2], tab))
+        m = fx.build_model(spec)
+        gr, sp_, tr, _ = m.model()
+        out[ktab] = (np.asarray(gr, float), np.asarray(sp_, float))
+    if r.check(out[True][0].shape == out[False][0].shape == (nW,), 'same-grid', 'bigk/grid-shape', got=out[True][0].shape):
+        a, b = out[True][1], out[False][1]
+        bad = np.nonzero(~np.isclose(a, b, rtol=1e-9, atol=0))[0]
+        r.check(bad.size == 0, 'degenerate-equals-xsec', 'bigk/spectrum/%s' % kind, count=int(bad.size),
+                first_bad_indices=bad[:6].tolist(), got=a[bad[:3]], want=b[bad[:3]])
+    r.observe(out[True][1][::499])
+    r.nontrivial = True
+    return r
+
+
+def band_fn(case):
+    """A user-supplied source that is opaque at ONE wavenumber (tau = 30 at the first or at a middle point of the grid,
+    nothing elsewhere), integrated before the molecular absorption: at every other wavenumber the correlated-k result is
+    what it is without that source."""
+    from taurex.contributions import Contribution
+    r = core.R(case)
+    c = dict((k, v[0]) for k, v in DIMS.items())
+    c.update(kind='transmission', N=case['N'], spread=3.0, gw=GWS[0], contribs=['abs'], mag='tau1', path=case['path'])
+    at = case['at']
+
+    class BandDeck(Contribution):
+        def __init__(self):
+            super().__init__('BandDeck')
+
+        @property
+        def order(self):
+            return 1
+
+        def prepare_each(self, model, wngrid):
+            self.sigma_xsec = np.zeros((model.nLayers, wngrid.shape[0]))
+            self.sigma_xsec[:, at] = 30.0
+            yield 'Band', self.sigma_xsec
+
+        def contribute(self, model, start_layer, end_layer, density_offset, layer, density, tau, path_length=None):
+            tau[layer] += self.sigma_xsec[layer]
+
+    mk, gk, sk, tk, _ = run(c, True)
+    base_t = np.array(tk, float)
+    mk.add_contribution(BandDeck())
+    mk.build()
+    _, s2, t2, _ = mk.model()
+    t2 = np.asarray(t2, float)
+    others = [i for i in range(len(gk)) if i != at]
+    r.eq(t2[:, others], base_t[:, others], 'other-wavenumbers-untouched', 'band/other-wavenumbers/%s' % case['path'],
+         rtol=1e-9, atol=1e-15, at=at)
+    r.check(bool(np.all(t2[:, at] <= math.exp(-30) * (1 + 1e-9) + 0 * base_t[:, at]) or
+                 np.allclose(t2[:, at], base_t[:, at] * math.exp(-30), rtol=1e-9, atol=1e-300)),
+            'band-opaque', 'band/band-itself', got=t2[:, at])
+    r.observe(t2)
+    r.nontrivial = bool(np.any((base_t > math.exp(-10)) & (base_t < 1 - 1e-9)))
+    return r
+
+
+# ---------------------------------------------------------------------------------------------
 # history phase (correlated-k mode): one live model, sequences of parameter updates vs fresh model
 # ---------------------------------------------------------------------------------------------
 HIST_ALPHABET = [['T', 700.0], ['T', 1900.0], ['planet_radius', 0.7], ['planet_mass', 2.0], ['H2O', 1e-6],
@@ -314,6 +398,11 @@ def explore(ctx):
         cases = core.product_cases(DIMS, core=['gw', 'spread', 'kind', 'mag', 'N', 'T', 'contribs'], d=3)
         ctx.bounds.update(deviations=3, core='gw x spread x kind x mag x N x T x contribs')
     ctx.run_cases('case_fn', cases, phase='inputs')
+    bk = [{'nW': nW, 'kind': kd} for nW in ((2500, 4097, 5000) if ctx.tier == 'quick' else (2049, 2500, 4096, 4097, 5000, 70001))
+          for kd in ('transmission', 'emission', 'directimage')]
+    ctx.run_cases('bigk_fn', bk, phase='large-grid')
+    bd = [{'N': n_, 'path': pth, 'at': at_} for n_ in (2, 3, 5) for pth in ('old', 'new') for at_ in (0, 1, 3)]
+    ctx.run_cases('band_fn', bd, phase='opaque-band')
     if ctx.tier == 'quick':
         hs = rthist.histories(HIST_ALPHABET, 2, HIST_REDUCED, 3)
         cfgs = [('transmission', 'same'), ('transmission', 'different')]
